@@ -81,7 +81,8 @@ def render(tree: Tree, rng: random.Random = None, hostile: float = 0.0, upper: f
     """Render with layout noise.  hostile = probability of a noisy separator at each gap."""
     if rng is None:
         return plain(tree)
-    nl = "\r\n" if crlf else "\n"
+    # crlf: True -> CR LF, "cr" -> a bare CR (the third line-end convention of universal newlines), False -> LF
+    nl = "\r" if crlf == "cr" else ("\r\n" if crlf else "\n")
 
     def sep(force: bool = False) -> str:
         # a separator that is at least one whitespace character when force, else possibly empty
